@@ -81,7 +81,9 @@ def layout_case(p):
     ep = p['ep']
     Xd = np.hstack((np.repeat(np.arange(2), (p['rows'] + 1) // 2)[:p['rows'], None].astype(float), X)) if ep else X
     ka = pykoop.RandomFourierKernelApprox(p['kernel'], n_components=p['D'], method=p['method'], random_state=p['rs'])
-    lf = pykoop.KernelApproxLiftingFn(kernel_approx=ka).fit(Xd, n_inputs=nu, episode_feature=ep)
+    # (the flag as a python bool, a numpy bool or 0 / 1: truthy and falsy values like any other)
+    ep_given = [ep, np.bool_(ep), int(ep)][p['seed'] % 3]
+    lf = pykoop.KernelApproxLiftingFn(kernel_approx=ka).fit(Xd, n_inputs=nu, episode_feature=ep_given)
     Xt = lf.transform(Xd)
     feats = lf.kernel_approx_.transform(X)
     want = np.hstack((Xd, feats))
@@ -96,6 +98,20 @@ def layout_case(p):
     ka2 = pykoop.RandomFourierKernelApprox(p['kernel'], n_components=p['D'], method=p['method'], random_state=p['rs']).fit(X)
     if not np.allclose(ka2.transform(X), feats):
         return dict(what='features of the lifting function differ from those of the stand-alone kernel approximation')
+    # history: a finished block with validation switched off; afterwards the same samples given as nested lists (a valid
+    # array-like under the default configuration) give the same features
+    if p['seed'] % 4 == 0:
+        before = dict(pykoop.get_config())
+        with pykoop.config_context(skip_validation=True):
+            lf.transform(Xd)
+        try:
+            Tl = np.asarray(lf.transform(Xd.tolist()))
+        except Exception as e:  # noqa
+            pykoop.set_config(**before)
+            return dict(what=f'after a finished config_context(skip_validation=True) block the lifting function refuses the same samples '
+                             f'given as nested lists: {type(e).__name__}: {e}'[:300])
+        if Tl.shape != Xt.shape or not np.array_equal(Tl, Xt):
+            return dict(what='after a finished config_context block the same samples given as nested lists give other features')
     return None
 
 
